@@ -362,11 +362,17 @@ macro_rules! each_harness {
             each.patterns.reserve(N);
             let mut i = 0;
             while i < N {
-                {
+                let target = {
                     let d = each.call(&|_| {});
+                    let t = d.wrapper.inner() as *const DynCallPatternBuilder;
                     core::mem::forget(d);
-                }
+                    t
+                };
                 assert!(each.patterns.len() == i + 1);
+                // the responses defined next go to the pattern just added, which is fresh and unordered
+                assert!(core::ptr::eq(target, &each.patterns[i]));
+                assert!(!is_in_order(&each.patterns[i].pattern_match_mode));
+                check_state(&each.patterns[i], 0, 0, 1, 0);
                 each.patterns[i].current_response_index = 100 + i;
                 i += 1;
             }
